@@ -484,7 +484,7 @@ ParenIdent(s) == \E i \in 1..Len(s) : /\ s[i] = "(" /\ IsDeclIdent(At(s, i + 1))
 -----------------------------------------------------------------------------
 (* the bounded universe of terms *)
 BasePrims == IF Profile = "small"
-             THEN {"int", "unsigned char", "long double"}
+             THEN {"int", "unsigned char"}
              ELSE {"char", "short", "int", "long", "long long", "signed char", "unsigned char",
                    "unsigned short", "unsigned int", "unsigned long", "unsigned long long",
                    "float", "double", "long double", "_Bool", "size_t", "uint8_t", "wchar_t"}
